@@ -19,13 +19,19 @@ type fastMem struct {
 	writes int
 	lastW  uint16
 	reads  int
+	rom    bool  // the operand cell keeps no write (ROM, a mapped register, unpopulated space)
+	romW   uint8 // what was written there last
 }
 
 func (m *fastMem) Get(a uint16) uint8 { m.reads++; return m.d[a] }
 func (m *fastMem) Set(a uint16, v uint8) {
-	m.d[a] = v
 	m.writes++
 	m.lastW = a
+	if m.rom && a == c02Mem {
+		m.romW = v
+		return
+	}
+	m.d[a] = v
 }
 
 // operation kinds
@@ -371,6 +377,10 @@ func c02Run(c *Ctx, t *c02Tables, mem *fastMem, e *aluEnc, base z80.States, d ui
 				ok := got == exp && !cpu.HALT
 				if ok && memOp {
 					ok = mem.d[c02Mem] == nv
+					if mem.rom {
+						// result and flags come from the operation, not from what the cell holds afterwards
+						ok = mem.d[c02Mem] == v && (nv == v && mem.writes == 0 || mem.writes > 0 && mem.romW == nv)
+					}
 				}
 				if !ok {
 					reported++
@@ -383,7 +393,7 @@ func c02Run(c *Ctx, t *c02Tables, mem *fastMem, e *aluEnc, base z80.States, d ui
 							"encoding": e.Name, "bytes": HexBytes(bs), "A": h8(uint8(a)), "operand": h8(v), "F": h8(f), "d": h8(d),
 							"want_A": h8(na), "want_F": h8(nf), "want_operand": h8(nv), "f_mask": h8(mask),
 							"pre": DumpState(&p, false), "post": DumpState(&cpu.States, cpu.HALT),
-							"mem_operand_after": h8(mem.d[c02Mem]), "writes": mem.writes})
+							"mem_operand_after": h8(mem.d[c02Mem]), "writes": mem.writes, "operand_cell_keeps_no_write": mem.rom})
 					} else if reported == 4 {
 						c.R.Violation(fmt.Sprintf("C02/%s/more", e.Name), nil)
 					}
@@ -494,6 +504,16 @@ func runC02(c *Ctx) {
 				}
 			}
 		}
+		if (e.Loc == lMemHL || e.Loc == lMemIX || e.Loc == lMemIY) && ch == 2 {
+			// the operand cell keeps no write (ROM / mapped register): A, flags and the
+			// value offered to the bus are those of the operation all the same
+			mem.rom = true
+			vs := []uint8{0x00, 0x01, 0x0f, 0x10, 0x7f, 0x80, 0xaa, 0xfe, 0xff}
+			for _, a := range []int{0x00, 0x0f, 0x7f, 0x80, 0x99, 0xff} {
+				nd += c02Run(c, t, mem, e, bases[ei], d, a, a+1, vs, c02F8)
+			}
+			mem.rom = false
+		}
 		if e.DPos >= 0 && ch == 1 {
 			// the same indexed encoding on the bundled memory types directly, effective
 			// address wrapping past 0000 / FFFF
@@ -530,9 +550,9 @@ func runC02(c *Ctx) {
 	c.R.Set("steps_displacement_sweep", dsweep)
 	c.R.Set("exhaustive", thorough)
 	if thorough {
-		c.R.Set("rule", "the complete cube A(256) x operand(256) x incoming F(256) through the real CPU.Step for every one of the 559 encodings (degenerate A x F where the operand register is A), plus all 256 displacements on a reduced value set for the indexed forms (also on z80.DumbMemory / z80.MapMemory handed to the CPU directly with the operand at 0005 / FFFA so that IX+d wraps); every 4096th Step continues on a by-value copy of the CPU struct; oracle = pure functions from the reference model's ALU layer (definitional flags), masks for SCF/CCF and BIT on memory; whole States compared (so nothing else may change), memory operand's final value compared (the number of bus accesses is C05's subject). Every (encoding, A, operand, F, d) tuple is enumerated once, so distinct = evaluations by construction; all are non-trivial (each executes the operation under test)")
+		c.R.Set("rule", "the complete cube A(256) x operand(256) x incoming F(256) through the real CPU.Step for every one of the 559 encodings (degenerate A x F where the operand register is A), plus all 256 displacements on a reduced value set for the indexed forms (also on z80.DumbMemory / z80.MapMemory handed to the CPU directly with the operand at 0005 / FFFA so that IX+d wraps); a pass for the memory forms where the operand cell keeps no write (ROM); every 4096th Step continues on a by-value copy of the CPU struct; oracle = pure functions from the reference model's ALU layer (definitional flags), masks for SCF/CCF and BIT on memory; whole States compared (so nothing else may change), memory operand's final value compared (the number of bus accesses is C05's subject). Every (encoding, A, operand, F, d) tuple is enumerated once, so distinct = evaluations by construction; all are non-trivial (each executes the operation under test)")
 	} else {
-		c.R.Set("rule", "complete cube A x operand x F for one representative encoding of each operation; for every other encoding all A x operand x 8 F values {00,FF,01,FE,10,02,D7,28}; all 256 displacements on a reduced value set for indexed forms (also on the bundled memory types directly, effective address wrapping); every 4096th Step continues on a by-value copy of the CPU struct; oracle and comparison as in the thorough tier. Every tuple is enumerated once, so distinct = evaluations by construction")
+		c.R.Set("rule", "complete cube A x operand x F for one representative encoding of each operation; for every other encoding all A x operand x 8 F values {00,FF,01,FE,10,02,D7,28}; all 256 displacements on a reduced value set for indexed forms (also on the bundled memory types directly, effective address wrapping); a pass for the memory forms where the operand cell keeps no write (ROM); every 4096th Step continues on a by-value copy of the CPU struct; oracle and comparison as in the thorough tier. Every tuple is enumerated once, so distinct = evaluations by construction")
 	}
 	c.R.Assume("oracle functions ref.Alu8/Inc8/Dec8/Rot/Bit/Daa/... are validated against the hardware CRCs by the self-test of the model that shares them")
 }
